@@ -20,6 +20,7 @@ package main
 
 import (
 	"fmt"
+	"go/token"
 	"go/types"
 	"sort"
 	"strings"
@@ -119,9 +120,42 @@ func newRequestSim(p *Prog) *reqSim {
 					rs.problem("done-unlocked:"+in.Parent().Name(), p.Pos(in.Pos()), "done flag written without holding the request mutex")
 				}
 			}
+			// a per-request budget is consumed: a counter of the request is incremented, or a
+			// marker field of the request is set under a test of that same field (test-and-set)
+			if fa, ok := stv.Addr.(*ssa.FieldAddr); ok && namedOf(fa.X.Type()) == req {
+				f := fieldOfAddr(fa)
+				if f != rs.doneF && consumesBudget(stv, f) {
+					st.addEff("budget")
+				}
+			}
 		}
 	}
 	return rs
+}
+
+// consumesBudget: the store increments field f, or sets it on a path that tested f.
+func consumesBudget(stv *ssa.Store, f *types.Var) bool {
+	if bo, ok := stv.Val.(*ssa.BinOp); ok && bo.Op == token.ADD {
+		if lf, _ := loadedField(bo.X); lf == f {
+			if _, isConst := bo.Y.(*ssa.Const); isConst {
+				return true
+			}
+		}
+	}
+	for _, ct := range dominatingConds(stv.Block()) {
+		bo, ok := ct.Cond.(*ssa.BinOp)
+		if !ok || (bo.Op != token.EQL && bo.Op != token.NEQ) {
+			continue
+		}
+		for _, side := range []ssa.Value{bo.X, bo.Y} {
+			for _, o := range origins(side) {
+				if lf, _ := loadedField(o); lf == f {
+					return true
+				}
+			}
+		}
+	}
+	return false
 }
 
 func (rs *reqSim) problem(key, pos, detail string) {
@@ -154,6 +188,7 @@ func checkC01(p *Prog, r *Report) {
 	c01Handoff(p, r)
 	c01LockOrder(p, r)
 	sendResult(p, r, "C01.send-result", requestRoles(p))
+	c01ReplyWrite(p, r)
 }
 
 // ---------------------------------------------------------------------------
@@ -162,6 +197,7 @@ func c01Activation(p *Prog, r *Report) {
 	const rule = "C01.activation"
 	r.Rule(rule, "an activation of an unanswered request ends in exactly one reply (done set, mutex held) or exactly one successful hand-over to a backend; an answered request is never answered again")
 	r.Rule("C01.progress", "the host-walking loop of the request has no cycle that does not advance the query plan")
+	r.Rule("C01.bounded-resend", "an activation that sends the request to the same host again (no QueryPlan.Next) first consumes a per-request budget (retry counter incremented, or a per-host marker tested and set): re-sends across activations (retry-same, re-execution after a re-prepare) are bounded, so the request is eventually answered")
 	r.Rule("C01.mutex", "replies and writes of the done flag happen with the request mutex held; the mutex is released on return and never re-acquired while held")
 	req := p.proxyRequestType()
 	type entry struct {
@@ -192,7 +228,7 @@ func c01Activation(p *Prog, r *Report) {
 			r.count("sim_states", rs.Nodes)
 			r.count("entry_points", 1)
 			name := fmt.Sprintf("%s.%s(%s)[done=%v]", req.Obj().Name(), e.m, e.desc, doneIn)
-			var bad []string
+			var bad, resend []string
 			nout := 0
 			for _, o := range outs {
 				if o.Panic {
@@ -222,6 +258,9 @@ func c01Activation(p *Prog, r *Report) {
 				case ho == 1 && (!dk || doneOut):
 					bad = append(bad, "handed to a backend but marked done (its answer would be discarded): "+desc)
 				}
+				if ho == 1 && o.St.eff["next"] == 0 && o.St.eff["budget"] == 0 {
+					resend = append(resend, "re-sent to the same host without consuming any per-request budget (no counter incremented, no marker tested and set): a backend that keeps provoking this activation keeps the request going forever and the client is never answered: "+desc)
+				}
 			}
 			if nout == 0 {
 				bad = append(bad, "no terminating path found")
@@ -230,6 +269,9 @@ func c01Activation(p *Prog, r *Report) {
 				fmt.Sprintf("%d outcomes, each exactly one reply or one hand-over", nout), strings.Join(dedupe(bad), " || "))
 			r.check(len(rs.NoProgress) == 0, "C01.progress", name, p.Pos(fn.Pos()), "every cycle calls QueryPlan.Next",
 				"cycle(s) without QueryPlan.Next: "+strings.Join(rs.NoProgress, " ; "))
+			if !doneIn {
+				r.check(len(resend) == 0, "C01.bounded-resend", name, p.Pos(fn.Pos()), "a same-host re-send consumes a budget", strings.Join(dedupe(resend), " || "))
+			}
 			var mk []string
 			for k := range rs.problems {
 				mk = append(mk, k)
@@ -736,4 +778,101 @@ func c01Closing(p *Prog, r *Report, cc *types.Named) {
 		}
 		r.check(launched, rule, "Conn.Start", p.Pos(fn.Pos()), "starts the reader goroutine", "Conn.Start does not launch the reader goroutine (Closing would never run)")
 	}
+}
+
+// c01ReplyWrite: replies are written with the client connection's Write and its result
+// is discarded (the done flag is already set), so Write must not give up on an open
+// connection: either the sender is queued or the connection was seen closed.
+func c01ReplyWrite(p *Prog, r *Report) {
+	const rule = "C01.reply-write"
+	r.Rule(rule, "the connection write used for replies either queues the sender or has observed the connection closed; it has no other way to fail or return (reply functions discard its result, so any other failure silently loses the one reply a request gets)")
+	req := p.proxyRequestType()
+	cl := p.proxyClientType()
+	var write *ssa.Function
+	ignored, used := 0, 0
+	for _, t := range []*types.Named{req, cl} {
+		for _, m := range p.methodsOf(t) {
+			eachCall(m, func(c ssa.CallInstruction) {
+				if !isConnWrite(c) {
+					return
+				}
+				write = c.Common().StaticCallee()
+				if v, ok := c.(ssa.Value); ok && v.Referrers() != nil {
+					n := 0
+					for _, ref := range *v.Referrers() {
+						if _, dbg := ref.(*ssa.DebugRef); !dbg {
+							n++
+						}
+					}
+					if n == 0 {
+						ignored++
+					} else {
+						used++
+					}
+				}
+			})
+		}
+	}
+	if write == nil {
+		fatalf("anchor: no reply function writes to the client connection")
+	}
+	s := newSim(p)
+	isClosedChan := func(ch ssa.Value) bool {
+		ct, ok := ch.Type().Underlying().(*types.Chan)
+		if !ok {
+			return false
+		}
+		st, ok := ct.Elem().Underlying().(*types.Struct)
+		return ok && st.NumFields() == 0
+	}
+	s.OnInstr = func(st *State, in ssa.Instruction) {
+		if _, ok := in.(*ssa.Send); ok {
+			st.addEff("queued")
+		}
+	}
+	s.OnBranch = func(st *State, cond ssa.Value, truth bool) {
+		bo, ok := cond.(*ssa.BinOp)
+		if !ok || bo.Op != token.EQL || !truth {
+			return
+		}
+		ex, ok := bo.X.(*ssa.Extract)
+		if !ok || ex.Index != 0 {
+			return
+		}
+		sel, ok := ex.Tuple.(*ssa.Select)
+		if !ok {
+			return
+		}
+		k, ok := constInt(bo.Y)
+		if !ok || int(k) >= len(sel.States) {
+			return
+		}
+		switch stt := sel.States[k]; {
+		case stt.Dir == types.SendOnly:
+			st.addEff("queued")
+		case stt.Dir == types.RecvOnly && isClosedChan(stt.Chan):
+			st.addEff("closed-seen")
+		}
+	}
+	outs := s.Run(write, newState())
+	r.count("sim_states", s.Nodes)
+	var bad []string
+	for _, o := range outs {
+		if o.Panic {
+			continue // the impossible fall-through of a blocking select
+		}
+		q, c := o.St.eff["queued"], o.St.eff["closed-seen"]
+		switch {
+		case q == 0 && c == 0:
+			bad = append(bad, fmt.Sprintf("path ending at %s returns %s without having queued the sender and without having seen the connection closed", p.Pos(o.Pos), o.Ret))
+		case q > 1:
+			bad = append(bad, fmt.Sprintf("path ending at %s queues the sender more than once", p.Pos(o.Pos)))
+		case q == 1 && o.Ret.K != avNil:
+			bad = append(bad, fmt.Sprintf("path ending at %s queues the sender but does not report success (returns %s)", p.Pos(o.Pos), o.Ret))
+		}
+	}
+	if len(outs) == 0 {
+		bad = append(bad, "no terminating path")
+	}
+	r.check(len(bad) == 0, rule, relName(write), p.Pos(write.Pos()), fmt.Sprintf("%d paths; %d reply sites discard the result, %d use it", len(outs), ignored, used), strings.Join(dedupe(bad), " || "))
 }
